@@ -465,7 +465,7 @@ class ExprCanon(ast.NodeTransformer):
         # map(f, X) -> (f(_m) for _m in X)   (one iterable, f a plain name / attribute)
         if isinstance(f0, ast.Name) and f0.id == "map" and len(node.args) == 2 and not node.keywords and (isinstance(node.args[0], (ast.Name, ast.Attribute, ast.Lambda)) or (isinstance(node.args[0], ast.Call) and ast.unparse(node.args[0].func).split(".")[-1] in ("itemgetter", "attrgetter", "methodcaller", "partial") and not any(isinstance(x, (ast.Call, ast.NamedExpr)) for a_ in node.args[0].args for x in ast.walk(a_)))):
             var = "_m"
-            call = _loc(ast.Call(func=node.args[0], args=[_loc(ast.Name(id=var, ctx=ast.Load()), node)], keywords=[]), node)
+            call = self.visit(_loc(ast.Call(func=node.args[0], args=[_loc(ast.Name(id=var, ctx=ast.Load()), node)], keywords=[]), node))
             gen = ast.comprehension(target=_loc(ast.Name(id=var, ctx=ast.Store()), node), iter=node.args[1], ifs=[], is_async=0)
             return _loc(ast.GeneratorExp(elt=call, generators=[gen]), node)
         # F([... for ...]) -> F(... for ...) for consumers of any iterable
